@@ -222,10 +222,36 @@ def pmap(ctx, modname, funcname, args, chunksize=1):
 
 
 def pmap_acc(ctx, modname, funcname, args, chunksize=1):
+    """pmap + merge; every violation is tagged with the shard that produced it
+    (module, function, pickled argument) so that a violation which depends on
+    what the same process did *before* (module-level state in the code under
+    test) can be re-executed as a whole shard in a fresh process"""
+    import base64
+    import pickle
+    args = list(args)
     acc = Acc()
-    for r in pmap(ctx, modname, funcname, args, chunksize):
+    for a, r in zip(args, pmap(ctx, modname, funcname, args, chunksize)):
+        if r.vlist:
+            tag = {"mod": modname, "fn": funcname,
+                   "arg": base64.b64encode(pickle.dumps(a)).decode()}
+            for lst in r.vlist.values():
+                for v in lst:
+                    v.setdefault("shard", tag)
         acc.merge(r)
     return acc
+
+
+def rerun_shard(tag, part, cls):
+    """run one recorded shard again in THIS (fresh) process; returns the
+    messages of the violations of the same (part, class)"""
+    import base64
+    import importlib
+    import pickle
+    mod = importlib.import_module(tag["mod"])
+    arg = pickle.loads(base64.b64decode(tag["arg"]))
+    r = getattr(mod, tag["fn"])(arg)
+    key = part + "|" + repr(sorted((cls or {}).items()))
+    return [v["msg"] for v in r.vlist.get(key, [])]
 
 
 def shard(seq, n):
